@@ -14,36 +14,41 @@
 EXTENDS Durability, Json, IOUtils
 Rec == ndJsonDeserialize(IOEnv.TRACE)
 
-VARIABLE l
-tvars == <<vars, l>>
+VARIABLES l,
+          partial    \* a request wrote some records and then failed: they are still in the segment
+tvars == <<vars, l, partial>>
 Ev == Rec[l]
 IsEvent(e) == l <= Len(Rec) /\ Rec[l].e = e /\ l' = l + 1
 
 TraceTx == 0..1000000
-TraceInit == Init /\ l = 1
+TraceInit == Init /\ l = 1 /\ partial = FALSE
 
-TWrite == IsEvent("write") /\ Ev.seg = seg /\ Write(Ev.tx)
-TPartial == IsEvent("partial") /\ Ev.seg = seg /\ wpc = "idle" /\ UNCHANGED vars
-TFsync == IsEvent("fsync") /\ Ev.seg = seg /\ Fsync /\ synced'[seg] = Ev.units
-TSetLen == IsEvent("set_len") /\ Ev.seg = seg /\ UNCHANGED vars
-TPublished == IsEvent("published") /\ Ev.seg = seg /\ Publish /\ watch'[W(seg)] = Ev.units
-TReplyOk == IsEvent("reply") /\ Ev.ok = 1 /\ cur = Ev.tx /\ Ev.seg = seg
+TWrite == UNCHANGED partial /\ IsEvent("write") /\ Ev.seg = seg /\ Write(Ev.tx)
+\* Write + failure of Durability!WriteFail, first half: records of the failing request are in the segment
+TPartial == IsEvent("partial") /\ Ev.seg = seg /\ wpc = "idle" /\ partial' = TRUE /\ UNCHANGED vars
+TFsync == UNCHANGED partial /\ IsEvent("fsync") /\ Ev.seg = seg /\ Fsync /\ synced'[seg] = Ev.units
+\* second half: seglog set_len truncates the live segment back
+TSetLen == IsEvent("set_len") /\ Ev.seg = seg /\ partial' = FALSE /\ UNCHANGED vars
+TPublished == UNCHANGED partial /\ IsEvent("published") /\ Ev.seg = seg /\ Publish /\ watch'[W(seg)] = Ev.units
+TReplyOk == UNCHANGED partial /\ IsEvent("reply") /\ Ev.ok = 1 /\ cur = Ev.tx /\ Ev.seg = seg
             /\ Len(content[seg]) = Ev.units /\ Reply
-TReplyFail == IsEvent("reply") /\ Ev.ok = 0 /\ wpc = "idle"
+\* an error reply leaves no record of the failed request behind (WriteFail is atomic in the model)
+TReplyFail == IsEvent("reply") /\ Ev.ok = 0 /\ wpc = "idle" /\ ~partial /\ UNCHANGED partial
               /\ failed' = failed \cup {Ev.tx}
               /\ UNCHANGED <<seg, content, synced, pending, liveIdx, liveSeg, closed, pool, watch,
                              waiting, acked, wpc, cur, rd>>
-TRollSynced == IsEvent("roll_synced") /\ Ev.seg = seg /\ RollSync
-TRollCreated == IsEvent("roll_created") /\ RollCreate /\ Ev.seg = seg'
-TRollSwapped == IsEvent("roll_swapped") /\ Ev.seg = seg /\ RollSwap
-TRollOld == IsEvent("roll_old") /\ Ev.seg = seg /\ wpc = "swapped" /\ UNCHANGED vars
-TRollNew == IsEvent("roll_new") /\ Ev.seg = seg /\ RollInstallNew
-TAck == IsEvent("ack") /\ \E w \in waiting : w.t = Ev.tx /\ Ack(w)
+TRollSynced == UNCHANGED partial /\ IsEvent("roll_synced") /\ Ev.seg = seg /\ RollSync
+TRollCreated == UNCHANGED partial /\ IsEvent("roll_created") /\ RollCreate /\ Ev.seg = seg'
+TRollSwapped == UNCHANGED partial /\ IsEvent("roll_swapped") /\ Ev.seg = seg /\ RollSwap
+TRollOld == UNCHANGED partial /\ IsEvent("roll_old") /\ Ev.seg = seg /\ wpc = "swapped" /\ UNCHANGED vars
+TRollNew == UNCHANGED partial /\ IsEvent("roll_new") /\ Ev.seg = seg /\ RollInstallNew
+TAck == UNCHANGED partial /\ IsEvent("ack") /\ \E w \in waiting : w.t = Ev.tx /\ Ack(w)
 \* a read issued after the acknowledgement finds every event of the transaction
-TRead == IsEvent("read") /\ (Ev.tx \in Published => Ev.found = 1) /\ Ev.tx \in acked
+TRead == UNCHANGED partial /\ IsEvent("read") /\ (Ev.tx \in Published => Ev.found = 1) /\ Ev.tx \in acked
          /\ UNCHANGED vars
 \* clean shutdown (its final sync appears as fsync/published lines) and reopen
 TReopen ==
+    /\ UNCHANGED partial
     /\ IsEvent("reopen") /\ wpc = "idle" /\ waiting = {} /\ pending = << >>
     /\ \A g \in Segs : synced[g] = Len(content[g])
     /\ liveIdx' = {content[seg][i] : i \in 1..Len(content[seg])}
@@ -53,6 +58,7 @@ TReopen ==
     /\ UNCHANGED <<seg, content, synced, pending, liveSeg, waiting, acked, failed, wpc, cur, rd>>
 \* start of the next recorded run
 TReset ==
+    /\ partial' = FALSE
     /\ IsEvent("reset")
     /\ seg' = 0 /\ content' = [g \in Segs |-> << >>] /\ synced' = [g \in Segs |-> 0]
     /\ pending' = << >> /\ liveIdx' = {} /\ liveSeg' = 0 /\ closed' = [g \in Segs |-> {}]
